@@ -1,6 +1,7 @@
 """C15 — hostile input is an error, never a panic: panic-site inventory over the read-side closure (A6)."""
 import json
 import os
+import re
 
 from .. import a6
 from .. import cfg as C
@@ -203,6 +204,29 @@ def run(ctx):
                 "async BAM read_record() validates the raw record after reading its body", start_after=_is_read_exact)
     from .c05 import validate_formula_rule
     validate_formula_rule(ctx, "C15.G")
+    # CRAM: the file-provided distance to the next fragment is validated against the slice before it is used as an index (F41)
+    frm = ctx.anchor("C15.G", "noodles_cram::io::reader::container::slice::resolve_mates")
+    if frm is not None:
+        anys = R.switch_on_call(frm, r"Iterator::any$")
+        cmp_len = [g for g in fb.family(frm.key) if g.is_closure and any(
+            kind in ("Ge", "Gt", "Lt", "Le") for _b, kind, _o, _t, _f in R._cmp_switches(g)) or any(
+            st[0] == "=" and st[2][0] == "bin" and st[2][1] in ("Ge", "Gt", "Lt", "Le") for g2 in [g] for blk in g2.blocks for st in blk["s"])]
+        idx = [bi for bi, blk in enumerate(frm.blocks) if not blk.get("cu") and blk["t"][0] == "assert" and "BoundsCheck" in str(blk["t"][1])]
+        idx += [b for b, c in frm.calls() if re.search(r"split_at_mut$|ops::index::Index(Mut)?<", c.get("f") or "")]
+        ex_err = {b for b, k in C.exit_points(frm) if k == "err"}
+        if not anys or not cmp_len or not idx:
+            ctx.violation("C15.G", "C15.G/mate-index-unchecked/" + frm.key,
+                          "resolve_mates no longer validates the file-provided mate indices against the number of records (any(..) test: %d, "
+                          "comparison closures: %d, index sites: %d): a distance that points past the slice panics" % (len(anys), len(cmp_len), len(idx)), frm.loc())
+        else:
+            sb, tt, ft, _c = anys[0]
+            bad_edge_ok = any(e in C.reachable(frm, tt, removed={sb}) for e in ex_err) and not any(i in C.reachable(frm, tt, removed={sb}) for i in idx)
+            around = [i for i in idx if i in C.reachable(frm, 0, removed={sb})]
+            if bad_edge_ok and not around:
+                ctx.ok("C15.G", frm.key + " :: mate indices validated before the first index", "%d index sites behind the any(index >= len) test" % len(idx), frm.loc(sb))
+            else:
+                ctx.violation("C15.G", "C15.G/mate-index-unchecked/" + frm.key,
+                              "resolve_mates indexes the records with a file-provided mate index on a path that has not passed the range test", frm.loc(around[0] if around else sb))
     # fn-pointer typed fields in workspace ADTs would defeat the call graph: assert there are none
     fps = [(k, f["name"]) for k, a in fb.adts.items() for v in a["variants"] for f in v["fields"]
            if f["ty"].startswith("fn(") or " fn(" in f["ty"] and "dyn" not in f["ty"]]
